@@ -341,5 +341,5 @@ P("C19",
   rule="encoding x DHT/PEX settings x torrent-file or magnet x PEX before/after metadata x port message; non-trivial = the torrent is classified private (or a private magnet is refused); distinct = distinct case",
   assumptions=["both runs of a case execute in one child process, one after the other"],
   units=[
-   U("c19.private", "c19", "TestPrivate", "private torrents: no DHT, no PEX in either direction, no magnet export, private identity strings; control shows the channels are live", Q(32, 16, 900), T(1200, 16), min_nontrivial_frac=0.2, shrinktime="60s"),
+   U("c19.private", "c19", "TestPrivate", "private torrents: no DHT, no PEX in either direction, no magnet export, private identity strings; control shows the channels are live", Q(32, 16, 900), T(1200, 16), min_nontrivial_frac=0.2, shrinktime="20s"),
   ])
